@@ -110,6 +110,30 @@ func (x *Exec) model(fr *Frame, st *State, fn *ssa.Function, args []Val, site ss
 			x.C.Assume(Implies(x.absPC(st.PC),ok), "continuing past "+what)
 		}
 	}
+	if strings.HasPrefix(name, "maps.Clone[") && len(args) == 1 {
+		// maps.Clone: a new map with the same entries (shallow: values are copied as they are); nil stays nil
+		if mt, ok := fn.Signature.Params().At(0).Type().Underlying().(*types.Map); ok {
+			_ = mt
+			x.trust("maps.Clone returns a new map holding the same key/value pairs (nil for nil)")
+			mtyp := fn.Signature.Params().At(0).Type()
+			mr, err := x.mapRegions(mtyp)
+			if err != nil {
+				return nil, true, err
+			}
+			m := T(0)
+			ref := st.Brk
+			st.Brk = x.C.Name("brk", bvBin("bvadd", st.Brk, BVInt(1, 32)))
+			x.C.Assume(bvCmp("bvult", ref, BVUint(0xfffffff0, 32)), "allocator does not exhaust 2^32 references")
+			d := x.heapGet(st, mr.D, mr.DS)
+			x.heapSet(st, mr.D, Store(d, ref, Select(d, m)))
+			v := x.heapGet(st, mr.V, mr.VS)
+			x.heapSet(st, mr.V, Store(v, ref, Select(v, m)))
+			l := x.heapGet(st, mr.L, mr.LS)
+			x.heapSet(st, mr.L, Store(l, ref, Select(l, m)))
+			res := Ite(Eq(m, BVInt(0, 32)), m, ref)
+			return []Val{TV{T: x.C.Name("mclone", res), Typ: fn.Signature.Results().At(0).Type()}}, true, nil
+		}
+	}
 	switch name {
 	case "math/bits.LeadingZeros8", "math/bits.LeadingZeros16", "math/bits.LeadingZeros32", "math/bits.LeadingZeros64":
 		x.trust(name)
